@@ -372,6 +372,12 @@ static void drain_fifo(int curk)
 
 			memcpy(id, buf + sizeof(m), m.len);
 			id[m.len] = 0;
+			if (!sess[0]) {
+				/* tell the wrapper at once (unbuffered): it removes the session's files even if
+				 * this process dies */
+				sscanf(id, "/uftrace-%16[0-9a-f]-", sess);
+				dprintf(2, "SESS %s\n", sess);
+			}
 			sscanf(id, "/uftrace-%16[0-9a-f]-%d-%d", sess, &tid, &seq);
 			q.type = m.type;
 			q.k = k_of_tid(tid);
